@@ -53,8 +53,13 @@ def p_varints(ctx):
                 ctx.violation(name, {"function": name.split(".")[0], "model": e[1], "solver_output": str(e[1])}, False, what=str(e[1])[:300])
 
 
+def p_thrift(ctx):
+    from ._thrift import p_thrift as f
+    f(ctx)
+
+
 def run(ctx):
-    return run_property(ctx, "other", EXPLANATION, p_parts=[p_tables, p_varints], b_modules=["c10_idl_roundtrip"],
+    return run_property(ctx, "other", EXPLANATION, p_parts=[p_tables, p_varints, p_thrift], b_modules=["c10_idl_roundtrip"],
                         assumptions=["the IDL file shipped with the library (parquet.thrift) is the normative one",
                                      "a struct absent from the tables is refused with an error (KeyError) when used"] + kernels.ASSUMED,
                         trusted=["spec/thrift_idl.py (IDL parser, validated by re-encoding 24 third-party footers byte-identically)",
